@@ -5,8 +5,9 @@
                               CheckExecutablePermissions
      path/filepath            Walk (lexical order inside a directory, SkipDir), Ext
      pkg/hook/hook_manager.go Init (sort.Strings on the paths, loadHook for each in
-                              order, first error aborts), loadHook (filepath.Rel, run
-                              `--config`, LoadConfig; the two error messages)
+                              order, first error aborts, hooksByName), loadHook (filepath.Rel,
+                              run `--config`, LoadConfig; the two error messages), GetHook
+     path/filepath            Rel, on the elements of the two paths
 
    The model follows the code AFTER the repair of F10 (the skip test for hidden / lib
    directories is applied only below the directory handed to the walk). *)
@@ -104,8 +105,55 @@ Definition working_dir (parent root : bytes) : bytes := join_path parent root.
 Definition get_executable_paths (parent root : bytes) (cs : list tree) : list bytes :=
   walk true (working_dir parent root) (Dir root cs).
 
-(* filepath.Rel(hm.workingDir, hookPath) for a path that Walk built below workingDir *)
-Definition rel (wd p : bytes) : bytes := skipn (S (length wd)) p.
+(* ---- filepath.Rel(hm.workingDir, hookPath), on path strings ----
+   Both arguments are clean ('Clean' is the identity on them: workingDir is given clean,
+   Walk builds hookPath with filepath.Join) and there is no volume name on unix.
+
+     if targ == base { return "." }
+     // Position base[b0:bi] and targ[t0:ti] at the first differing elements.
+     for bi < bl && ti < tl { ...advance over one element of each...
+         if targ[t0:ti] != base[b0:bi] { break } ... }
+     if b0 != bl { // Base elements left. Must go up before going down.
+         return ".." + "/.." * seps + "/" + targ[t0:] }
+     return targ[t0:]
+
+   The loop compares the two paths ELEMENT BY ELEMENT FROM THE FRONT and stops at the first
+   difference (or when one path is used up); nothing behind that position is ever compared
+   with the base again.  [split_path] cuts a path at its separators (an absolute path has
+   the empty string as first element), [strip_common] is the loop, [join_comps] writes the
+   result.  The two error returns of Rel (one path absolute and the other not; a ".."
+   element left in the base) are not modelled: they need a base that is not an element-wise
+   prefix of the target, which Walk never produces (C20_Proofs.rel_join). *)
+Definition s_dot : bytes := [46].                               (* "." *)
+Definition s_dotdot : bytes := [46; 46].                        (* ".." *)
+
+Fixpoint split_path (p : bytes) : list bytes :=
+  match p with
+  | [] => [[]]
+  | x :: r => if N.eqb x slash then [] :: split_path r
+              else match split_path r with
+                   | c :: cs => (x :: c) :: cs
+                   | [] => [[x]]                  (* unreachable: split_path never returns [] *)
+                   end
+  end.
+
+Fixpoint join_comps (cs : list bytes) : bytes :=
+  match cs with
+  | [] => []
+  | [c] => c
+  | c :: r => c ++ slash :: join_comps r
+  end.
+
+Fixpoint strip_common (base targ : list bytes) : list bytes * list bytes :=
+  match base, targ with
+  | b :: bs, t :: ts => if bytes_eqb b t then strip_common bs ts else (base, targ)
+  | _, _ => (base, targ)
+  end.
+
+Definition rel (wd p : bytes) : bytes :=
+  if bytes_eqb wd p then s_dot
+  else let (b, t) := strip_common (split_path wd) (split_path p) in
+       join_comps (map (fun _ => s_dotdot) b ++ t).
 
 (* the sorted paths Init iterates over, and the hook names they get *)
 Definition sorted_paths (parent root : bytes) (cs : list tree) : list bytes :=
@@ -146,3 +194,34 @@ Fixpoint load_all (wd : bytes) (beh : bytes -> behaviour) (paths : list bytes)
 
 Definition init (parent root : bytes) (cs : list tree) (beh : bytes -> behaviour) : init_out :=
   load_all (working_dir parent root) beh (sorted_paths parent root cs) [] [].
+
+(* ---- the by-name index hm.hooksByName ----
+   The same loop once more, keeping only the map: `hm.hooksByName[hook.Name] = hook` for
+   every hook loaded before the first error.  A Go map as an association list: an
+   assignment puts the newest binding in front, a lookup takes the first match - so a
+   second hook with the same name REPLACES the first, as in Go. *)
+Definition by_name := list (bytes * bytes).       (* hook.Name -> hook.Path *)
+
+Definition index_get (m : by_name) (name : bytes) : option bytes :=
+  match find (fun kv => bytes_eqb (fst kv) name) m with
+  | Some kv => Some (snd kv)
+  | None => None
+  end.
+
+Fixpoint load_index (wd : bytes) (beh : bytes -> behaviour) (paths : list bytes) (idx : by_name) : by_name :=
+  match paths with
+  | [] => idx
+  | p :: r =>
+      let name := rel wd p in
+      match beh name with
+      | BOk => load_index wd beh r ((name, p) :: idx)    (* hm.hooksByName[hook.Name] = hook *)
+      | _ => idx                                         (* return err *)
+      end
+  end.
+
+Definition hooks_by_name (parent root : bytes) (cs : list tree) (beh : bytes -> behaviour) : by_name :=
+  load_index (working_dir parent root) beh (sorted_paths parent root cs) [].
+
+(* hm.GetHook(name): the Path of the hook found, "" for nil *)
+Definition get_hook_path (m : by_name) (name : bytes) : bytes :=
+  match index_get m name with Some p => p | None => [] end.
